@@ -204,12 +204,17 @@ def r3(k: Kit) -> None:
              'created in set_encoding; the decoder\'s final flush happens '
              'only at EOF/close with an empty buffer')
     se = k.func(CH + 'set_encoding')
-    src = unparse(se.node)
-    rep.check('codecs.getincrementalencoder(encoding)(errors)' in src and
-              'codecs.getincrementaldecoder(encoding)(errors)' in src,
+
+    def made_by(v, maker):
+        return isinstance(v, ast.Call) and isinstance(v.func, ast.Call) \
+            and is_call(v.func, maker)
+    encs = [v for n, v in k.stores_to(se, 'self._encoder') if v is not None
+            and not (isinstance(v, ast.Constant) and v.value is None)]
+    rep.check(bool(encs) and all(made_by(v, 'getincrementalencoder')
+                                 for v in encs),
               'C07.R3', key(se, 'incremental codecs'),
-              'incremental encoder and decoder per channel',
-              'set_encoding does not create incremental codecs',
+              'incremental encoder per channel',
+              'set_encoding does not create an incremental encoder',
               se.loc(se.node))
     dd = k.func(CH + '_deliver_data')
     g = k.cfg(dd)
@@ -217,15 +222,42 @@ def r3(k: Kit) -> None:
     for n, c in k.call_nodes(dd, lambda c: is_call(c, 'data_received')):
         leaves, free = expr_sources(g, rd, n.id, c.args[0])
         ok = True
+        dec_calls = []
         for lf in leaves:
             calls = [x for x in walk_shallow(lf) if isinstance(x, ast.Call)
                      and isinstance(x.func, ast.Attribute) and
                      x.func.attr == 'decode']
             for x in calls:
-                if dotted(x.func.value) != 'self._decoder':
+                dec_calls.append(x)
+                src_l, _ = expr_sources(g, rd, n.id, x.func.value)
+                # an incremental decoder: created here, or kept in a field
+                # that only such objects are stored into
+                for l in list(src_l) + [x.func.value]:
+                    if made_by(l, 'getincrementaldecoder') or \
+                            isinstance(l, ast.Name):
+                        continue
+                    d = dotted(l) if not isinstance(l, ast.Call) else \
+                        dotted(l.func.value) if isinstance(
+                            l.func, ast.Attribute) else None
+                    if d and d.startswith('self._decoder'):
+                        continue
+                    if isinstance(l, ast.Constant) and l.value is None:
+                        continue
                     ok = False
-        enc_leaf = any(is_call(x, 'decode', 'self._decoder')
-                       for lf in leaves for x in walk_shallow(lf))
+        enc_leaf = bool(dec_calls)
+        # one decoder per data type: stdout and stderr are separate
+        # character streams
+        per_type = bool(dec_calls) and all(
+            'datatype' in depends_on(g, rd, n.id, x.func.value)
+            for x in dec_calls)
+        rep.check(per_type, 'C07.R3', key(dd, 'decoder per data type'),
+                  'the incremental decoder is selected by the data type',
+                  'stdout and stderr share one incremental decoder: when a '
+                  'binary-mode peer sends a multi-byte character split over '
+                  'two DATA packets with an EXTENDED_DATA packet in between '
+                  '(b"\\xc3", stderr b"E", b"\\xa9"), the valid streams '
+                  '"é" and "E" end in ProtocolError and the connection is '
+                  'dropped', k.loc(dd, n))
         rep.check(ok and enc_leaf, 'C07.R3', key(dd, 'incremental decode'),
                   'delivered text comes from the incremental decoder',
                   'received text is decoded with a one-shot decode: a '
@@ -241,11 +273,11 @@ def r3(k: Kit) -> None:
               'write() encodes with a one-shot encode', wr.loc(wr.node))
     fr = k.func(CH + '_flush_recv_buf')
     g = k.cfg(fr)
-    for n, c in k.calls_named(fr, 'decode', 'self._decoder'):
-        final = len(c.args) == 2 and isinstance(c.args[1], ast.Constant) \
-            and c.args[1].value is True
-        if not final:
-            continue
+    finals = [(n, c) for n, c in k.call_nodes(
+        fr, lambda c: is_call(c, 'decode') and len(c.args) == 2 and
+        isinstance(c.args[1], ast.Constant) and c.args[1].value is True)]
+    rep.floor('C07.R3', 'final decoder flush sites', len(finals), 1)
+    for n, c in finals:
 
         def eofstate(x: Node) -> Optional[bool]:
             a = x.ast
